@@ -160,6 +160,152 @@ theorem C20_multi_accepted_harmless (inputs : List (Field × NumClass))
       have := List.find?_eq_none.mp hf (expected fc.1 fc.2) (List.mem_map.mpr ⟨fc, hfc, rfl⟩)
       simpa using this
 
+/-! ### which results are computed -/
+
+/-- `main` with the result options taken into account -/
+def mainOutcomeSel (opts : List ResOpt) (nearGiven : Bool) (inputs : List (Field × NumClass)) (o : Output) (k : Kernel) :
+    Outcome :=
+  match composeSel opts nearGiven inputs with
+  | .report =>
+    match wrapOutput Pmn.Const.outputCaught o with
+    | some r => r
+    | none => wrapKernel Pmn.Const.kernelCaught k
+  | r => r
+
+theorem expectedSel_ok (s : Selection) (f : Field) (c : NumClass) : Outcome.ok (expectedSel s f c) = true := by
+  have h := C20_table f c
+  unfold expectedSel
+  cases he : expected f c with
+  | diag => simp only; split <;> rfl
+  | usage => rfl
+  | report => rfl
+  | crash e => rw [he] at h; simp [Outcome.ok] at h
+  | nonfinite => rw [he] at h; simp [Outcome.ok] at h
+
+theorem composeSel_ok (opts : List ResOpt) (nearGiven : Bool) (inputs : List (Field × NumClass)) :
+    Outcome.ok (composeSel opts nearGiven inputs) = true := by
+  unfold composeSel
+  cases select opts nearGiven with
+  | none =>
+    simp only
+    apply composeOutcome_ok
+    intro x hx
+    rcases List.mem_append.mp hx with hx | hx
+    · obtain ⟨fc, _, rfl⟩ := List.mem_map.mp hx
+      exact C20_table fc.1 fc.2
+    · simp only [List.mem_singleton] at hx; subst hx; rfl
+  | some s =>
+    simp only
+    apply composeOutcome_ok
+    intro x hx
+    obtain ⟨fc, _, rfl⟩ := List.mem_map.mp hx
+    exact expectedSel_ok s fc.1 fc.2
+
+/-- **trichotomy with the result options**: whatever results are requested (any list of `--option`, `--near-field` present or
+not) and whatever value classes any number of inputs hold, the outcome is the usage error, the diagnostic or the report -/
+theorem C20_trichotomy_sel (opts : List ResOpt) (nearGiven : Bool) (inputs : List (Field × NumClass)) (o : Output) (k : Kernel)
+    (ho : ∀ e, o = .raises e → e ∈ outputRaises)
+    (h : ∀ e, k = .raises e → e ∈ kernelRaises) : Outcome.ok (mainOutcomeSel opts nearGiven inputs o k) = true := by
+  unfold mainOutcomeSel
+  have hc := composeSel_ok opts nearGiven inputs
+  cases he : composeSel opts nearGiven inputs with
+  | report =>
+    simp only
+    rcases C20_output_guard o ho with h0 | h0
+    · rw [h0]; simp only
+      rcases C20_kernel_guard k h with h1 | h1 <;> rw [h1] <;> rfl
+    · rw [h0]; rfl
+  | usage => rfl
+  | diag => rfl
+  | crash e => rw [he] at hc; simp [Outcome.ok] at hc
+  | nonfinite => rw [he] at hc; simp [Outcome.ok] at hc
+
+/-- the default: no `--option` means the near field when `--near-field` parameters are given and the far field (in dBi)
+otherwise; `none` alone computes neither; `near-field` without parameters is the diagnostic -/
+theorem C20_select_default (nearGiven : Bool) :
+    select [] nearGiven = some { far := !nearGiven, farAbs := false, near := nearGiven } ∧
+    select [.none] nearGiven = some { far := false, farAbs := false, near := false } ∧
+    select [.nearField] false = none := by
+  cases nearGiven <;> decide
+
+/-- the diagnostic "Option near-field needs --near-field parameters" whatever else is on the command line (unless `argparse`
+rejects it first) -/
+theorem C20_near_needs_parameters (opts : List ResOpt) (inputs : List (Field × NumClass)) (h : ResOpt.nearField ∈ opts) :
+    composeSel opts false inputs = .usage ∨ composeSel opts false inputs = .diag := by
+  have hs : select opts false = none := by
+    unfold select
+    have : opts.contains ResOpt.nearField = true := List.contains_iff_mem.mpr h
+    rw [this]; rfl
+  unfold composeSel
+  rw [hs]
+  simp only
+  unfold composeOutcome
+  split
+  · left; rfl
+  · right
+    rename_i hu
+    cases hf : (inputs.map (fun fc => expected fc.1 fc.2) ++ [Outcome.diag]).find? (· != .report) with
+    | none =>
+      have := List.find?_eq_none.mp hf Outcome.diag (by simp)
+      simp at this
+    | some o =>
+      simp only
+      have hm := List.mem_of_find?_eq_some hf
+      have hp := List.find?_some hf
+      rcases List.mem_append.mp hm with hm | hm
+      · obtain ⟨fc, _, rfl⟩ := List.mem_map.mp hm
+        have hok := C20_table fc.1 fc.2
+        cases he : expected fc.1 fc.2 with
+        | diag => rfl
+        | report => rw [he] at hp; simp at hp
+        | usage =>
+          exfalso; apply hu
+          apply List.any_eq_true.mpr
+          exact ⟨expected fc.1 fc.2, List.mem_append.mpr (Or.inl hm), by rw [he]; rfl⟩
+        | crash e => rw [he] at hok; simp [Outcome.ok] at hok
+        | nonfinite => rw [he] at hok; simp [Outcome.ok] at hok
+      · simp only [List.mem_singleton] at hm; exact hm
+
+/-- an input that only a result which is not computed looks at cannot end the run with its diagnostic; an input that is
+validated while the model is built does so whatever is requested -/
+theorem C20_unselected_silent (s : Selection) (f : Field) (c : NumClass) :
+    (s.runs (stage f c) = false → expectedSel s f c ≠ .diag) ∧
+    (s.runs (stage f c) = true → expectedSel s f c = expected f c) := by
+  unfold expectedSel
+  constructor
+  · intro h
+    cases he : expected f c <;> simp [h]
+  · intro h
+    cases he : expected f c <;> simp [h]
+
+/-- with every result requested the rule is the composition rule for inputs that are all evaluated -/
+theorem C20_sel_all (nearGiven : Bool) (inputs : List (Field × NumClass)) (opts : List ResOpt)
+    (s : Selection) (hs : select opts nearGiven = some s) (hf : s.far = true) (ha : s.farAbs = true) (hn : s.near = true) :
+    composeSel opts nearGiven inputs = composeOutcome (inputs.map fun fc => expected fc.1 fc.2) := by
+  unfold composeSel
+  rw [hs]
+  simp only
+  congr 1
+  apply List.map_congr_left
+  intro fc _
+  apply (C20_unselected_silent s fc.1 fc.2).2
+  cases stage fc.1 fc.2 <;> simp [Selection.runs, hf, ha, hn]
+
+/-- only thirteen cells of the table belong to a particular result; every other diagnostic is independent of the request -/
+theorem C20_stage_cells :
+    (Field.all.flatMap fun f => (NumClass.all.filter fun c => stage f c != .always).map fun c => (f, c)).length = 13 := by
+  decide
+
+/-- … and each of them is a diagnostic in the table (the stage matters only there) -/
+theorem C20_stage_only_diag (f : Field) (c : NumClass) (h : stage f c ≠ .always) : expected f c = .diag := by
+  have : ∀ f ∈ Field.all, ∀ c ∈ NumClass.all, stage f c ≠ .always → expected f c = .diag := by decide
+  exact this f (mem_all_fields f) c (mem_all_classes c) h
+
+/-- the false alarm of the first version of the tie, as a statement of the model: an infinite azimuth step next to a
+near-field request is a report (only the near field is computed), with the far field requested it is the diagnostic -/
+example : composeSel [] true [(.phiInc, .inf), (.nfPower, .zero)] = .report ∧
+    composeSel [.farField, .nearField] true [(.phiInc, .inf), (.nfPower, .zero)] = .diag := by decide
+
 /-- the former `main` had no clause around the compute loop: a kernel exception escaped -/
 theorem C20_defect_witness : wrapKernel [] (.raises .ZeroDivisionError) = .crash .ZeroDivisionError := by
   decide
